@@ -206,8 +206,9 @@ def main(argv=None):
     t0 = time.time()
     from vlib import env as venv
     mod = _load(prop)
-    os.makedirs(os.path.join(VERIF, 'evidence'), exist_ok=True)
-    os.makedirs(os.path.join(VERIF, 'replay'), exist_ok=True)
+    outroot = os.environ.get('VERIF_OUT') or VERIF        # scratch runs against seeded changes write elsewhere
+    os.makedirs(os.path.join(outroot, 'evidence'), exist_ok=True)
+    os.makedirs(os.path.join(outroot, 'replay'), exist_ok=True)
     import tempfile
     workdir = tempfile.mkdtemp(prefix=f'verif-{prop}-')
     inconclusive = []
@@ -294,7 +295,7 @@ def main(argv=None):
         if n >= MAX_REPLAYS_PER_KEY:
             continue
         new_violations += 1
-        path = os.path.join(VERIF, 'replay', f'{prop}-{re.sub(r"[^A-Za-z0-9_.-]+", "_", key)[:60]}-{args.seed}-{n}.json')
+        path = os.path.join(outroot, 'replay', f'{prop}-{re.sub(r"[^A-Za-z0-9_.-]+", "_", key)[:60]}-{args.seed}-{n}.json')
         with open(path, 'w') as f:
             json.dump({'property': prop, 'key': key, 'what': v['what'], 'witness': v['witness'],
                        'shard': v.get('shard'), 'tier': args.tier, 'seed': args.seed}, f, indent=1, default=str)
@@ -332,7 +333,7 @@ def main(argv=None):
         'wall_s': round(time.time() - t0, 2),
         'violations': unknown_total,
     }
-    with open(os.path.join(VERIF, 'evidence', f'{prop}.json'), 'w') as f:
+    with open(os.path.join(outroot, 'evidence', f'{prop}.json'), 'w') as f:
         json.dump(evidence, f, indent=1, default=str, sort_keys=True)
     if not args.keep:
         import shutil
